@@ -119,3 +119,25 @@ void h_CompressLine_short(void) {
       VPOST(same, "C11: exactly the whole-name occurrences of the parameter are replaced by its token; all other text is kept in order"); }
     VREACH("end");
 }
+
+/* ---- C03 / C11: what counts as a symbol name / macro parameter name.  The character classes are an arbitrary table (they
+ * depend on the target); the rule itself: a name is non-empty, its first character is of the 'first' class, every further
+ * one of the 'following' class.  An empty name accepted as a macro / IRP / FUNCTION parameter makes the text substitution
+ * loop forever (ReplaceLine with a zero-length search). ---- */
+void h_ChkNames(void) {
+    static Byte table[256]; char name[4]; int i, n, want_s, want_m; Boolean rs, rm;
+    VND_BYTES(table, 256); ValidSymChar = table; ValidSymCharLen = 256;
+    VND_BYTES(name, 4); name[3] = 0;
+    for (n = 0; n < 3 && name[n]; n++) ;
+    want_s = want_m = (n > 0);
+    for (i = 0; i < 3; i++) if (i < n) {
+        Byte c = table[(unsigned char)name[i]];
+        if (!(c & (i == 0 ? 1 : 2))) want_s = 0;     /* VALID_S1 / VALID_SN */
+        if (!(c & (i == 0 ? 4 : 8))) want_m = 0;     /* VALID_M1 / VALID_MN */
+    }
+    rs = ChkSymbName(name); rm = ChkMacSymbName(name);
+    VPOST((rs != 0) == (want_s != 0), "C13/C03: a symbol name is non-empty, starts with a 'first' character and continues with 'following' characters");
+    VPOST((rm != 0) == (want_m != 0), "C11/C03: a macro parameter name is non-empty, starts with a 'first' character and continues with 'following' characters");
+    VREACH("end");
+    if (n == 0) VREACH("empty name");
+}
